@@ -166,7 +166,7 @@ int main(int argc, char **argv) {
             if (k) { name = vh_malloc(strlen(kn[k]) + 1); strcpy(name, kn[k]); }
             int ok = 1, rv = 0; long n = 0; size_t sz = 0; void *p = NULL;
             static int outk[70000], outv[70000]; int nout = -1;
-            long lkb = vh_locks - vh_unlocks, ovb = vh_overlap_copies, bfb = vh_badfree;
+            long lkb = VH_LOCK_BALANCE(), ovb = vh_overlap_copies, bfb = vh_badfree;
             int newmem = (int) (vh_step & 1);
             vh_watchdog(6);
             errno = 0;
@@ -220,7 +220,7 @@ int main(int argc, char **argv) {
             chain_json(&b, T->slots[h]);
             vh_bprintf(&b, ",\"full\":%s,\"chains\":[", vh_bool(full));
             if (full) for (int i = 0; i < realR; i++) { if (i) vh_bprintf(&b, ","); chain_json(&b, T->slots[i]); }
-            vh_bprintf(&b, "],\"lkd\":%ld,\"ovl\":%ld,\"bf\":%ld}", (vh_locks - vh_unlocks) - lkb, vh_overlap_copies - ovb, vh_badfree - bfb);
+            vh_bprintf(&b, "],\"lkd\":%ld,\"ovl\":%ld,\"bf\":%ld}", VH_LOCK_BALANCE() - lkb, vh_overlap_copies - ovb, vh_badfree - bfb);
             vh_bflush(&b);
             if (!inject || nfail == 0 || ok ) break;
         }
